@@ -2,7 +2,7 @@
     ([runtime.rs]) and of [Expression::search] ([lib.rs:396-399]).
     [interp fuel rt data node off] returns the value and the context offset
     after evaluation ([ctx.offset] is a mutable cursor that is set at every call
-    and at a step-0 slice, and never restored). *)
+    and at a step-0 slice, and restored when a call returns successfully). *)
 From Coq Require Import Floats.SpecFloat.
 From JP Require Import Base F64 Value Sig Slice JsonRead JsonPrint Functions Gen.Tables.
 
@@ -131,10 +131,10 @@ Fixpoint interp (fuel : nat) (rt : registry) (data : value) (node : ast) (off : 
           if is_null data then Ok (VNull, off)
           else let* (m, o1) := eval_kvs (fun e o => ev data e o) kvs [] off in Ok (VObj m, o1)
       | AFunction foff name args =>
-          let* (fn_args, _) := eval_list (fun e o => ev data e o) args [] off in
-          (* ctx.offset = offset *)
+          let* (fn_args, caller_offset) := eval_list (fun e o => ev data e o) args [] off in
+          (* ctx.offset = offset; on success the caller's offset is restored *)
           match rt_get rt name with
-          | Some fi => call_impl ev fi fn_args foff
+          | Some fi => let* (v, _) := call_impl ev fi fn_args foff in Ok (v, caller_offset)
           | None => Err (ERuntime (KUnknownFunction name) foff)
           end
       | AExpref a => Ok (VExpref a, off)
